@@ -21,7 +21,7 @@ def gen_spec(rng, size=None, features=None):
     feats = features if features is not None else {
         'hdrs', 'steps', 'multi', 'gensrc', 'copy', 'alias', 'cmd', 'test',
         'extra', 'default', 'install', 'always', 'subdirs', 'shared', 'implicit', 'pch', 'prelib',
-        'versioned', 'cmds', 'filelists', 'duallib'}
+        'versioned', 'cmds', 'filelists', 'duallib', 'submodule'}
     n = size or rng.randint(4, 22)
     files = {}
     nodes = []
@@ -56,6 +56,12 @@ def gen_spec(rng, size=None, features=None):
     def nid():
         counter[0] += 1
         return counter[0]
+
+    if 'submodule' in feats and rng.random() < 0.4:
+        # a few targets declared by a submodule script (paths there are relative to its own
+        # directory, outputs land below the matching build sub-directory); the top-level
+        # script gets them back through export() and uses them like its own
+        nodes.extend(gen_sub(rng, nid, files))
 
     def outputs_of(kinds=None):
         res = []
@@ -260,6 +266,55 @@ def gen_spec(rng, size=None, features=None):
     return spec
 
 
+def gen_sub(rng, nid, files, sm='sm'):
+    nodes = []
+    srcs, dat = [], []
+    for i in range(rng.randint(2, 3)):
+        p = '%s/t%d.c' % (sm, i)
+        files[p] = STUB_C
+        srcs.append(p)
+    for i in range(2):
+        p = '%s/sdata/e%d.txt' % (sm, i)
+        files[p] = 'sub data %d\n' % i
+        dat.append(p)
+    for _ in range(rng.randint(2, 5)):
+        kind = rng.choice(['obj', 'exe', 'slib', 'dlib', 'copy', 'objs', 'copies'])
+        i = nid()
+        if kind == 'obj':
+            nd = {'id': i, 'kind': 'obj', 'name': '%s/%so%d' % (sm, rng.choice(['', 'q/']), i),
+                  'src': ['file', rng.choice(srcs)], 'hdrs': [], 'extra': [], 'ghdrs': [],
+                  'pch': None}
+        elif kind in ('exe', 'slib', 'dlib'):
+            objs = [n['id'] for n in nodes if n['kind'] == 'obj']
+            use_objs = rng.sample(objs, rng.randint(0, min(2, len(objs))))
+            use_srcs = rng.sample(srcs, 1) if not use_objs or rng.random() < 0.5 else []
+            libs = [n['id'] for n in nodes if n['kind'] in ('slib', 'dlib')]
+            nd = {'id': i, 'kind': kind,
+                  'name': '%s/%s%d' % (sm, {'exe': 'e', 'slib': 'l', 'dlib': 'l'}[kind], i),
+                  'objs': use_objs, 'srcs': use_srcs, 'members': [], 'hdrs': [],
+                  'libs': rng.sample(libs, rng.randint(0, min(1, len(libs)))), 'extra': [],
+                  'pch_str': None, 'prelibs': []}
+        elif kind == 'copy':
+            nd = {'id': i, 'kind': 'copy', 'name': '%s/c%d.out' % (sm, i),
+                  'src': ['file', rng.choice(dat)], 'mode': rng.choice(['copy', 'symlink']),
+                  'extra': []}
+        elif kind == 'objs':
+            nd = {'id': i, 'kind': 'objs', 'dir': 'ob%d' % i, 'srcs': rng.sample(srcs, 2),
+                  'hdrs': [], 'extra': []}
+        else:
+            nd = {'id': i, 'kind': 'copies', 'dir': 'cp%d' % i, 'srcs': list(dat),
+                  'mode': 'copy', 'extra': []}
+        nd['sm'] = sm
+        nodes.append(nd)
+    return nodes
+
+
+def _in_sub(nd, path):
+    """`path` as the submodule's own script writes it."""
+    sm = nd.get('sm')
+    return path[len(sm) + 1:] if sm and path.startswith(sm + '/') else path
+
+
 def out_names(nd):
     """Output file names (relative to the build dir) a node produces."""
     k = nd['kind']
@@ -280,10 +335,11 @@ def out_names(nd):
     if k == 'pch':
         return [nd['name'] + '.gch']
     if k == 'objs':
-        pre = nd['dir'] + '/' if nd['dir'] else ''
-        return [pre + os.path.splitext(s)[0] + '.o' for s in nd['srcs']]
+        pre = (nd['sm'] + '/' if nd.get('sm') else '') + (nd['dir'] + '/' if nd['dir'] else '')
+        return [pre + os.path.splitext(_in_sub(nd, s))[0] + '.o' for s in nd['srcs']]
     if k == 'copies':
-        return [nd['dir'] + '/' + s for s in nd['srcs']]
+        pre = (nd['sm'] + '/' if nd.get('sm') else '') + nd['dir'] + '/'
+        return [pre + _in_sub(nd, s) for s in nd['srcs']]
     return []
 
 
@@ -326,11 +382,29 @@ def _ref(ref):
     return 'n%d_out[%d]' % (ref[1], ref[2])
 
 
+def _as_written(nd):
+    """The node with names and file paths as its own script spells them."""
+    if not nd.get('sm'):
+        return nd
+    w = dict(nd)
+    if 'name' in w:
+        w['name'] = _in_sub(nd, w['name'])
+    if 'src' in w and w['src'][0] == 'file':
+        w['src'] = ['file', _in_sub(nd, w['src'][1])]
+    if 'srcs' in w:
+        w['srcs'] = [_in_sub(nd, x) for x in w['srcs']]
+    return w
+
+
 def render(spec, stub='vrec'):
-    L = ['# generated by vf.gen.dag']
+    top = ['# generated by vf.gen.dag']
+    subs = {}
     every = []
     for nd in spec['nodes']:
         i, k = nd['id'], nd['kind']
+        nd = _as_written(nd)
+        L = subs.setdefault(nd['sm'], ['# generated by vf.gen.dag (submodule)']) \
+            if nd.get('sm') else top
         v = 'n%d' % i
         extra = ''
         if nd.get('extra'):
@@ -417,6 +491,18 @@ def render(spec, stub='vrec'):
             L.append('%s_out = %s' % (v, 'list(%s)' % v if multi else '[%s]' % v))
         if k not in ('test',):
             every.append(v + '_out')
+    L = top
+    # what the submodules declare comes back through export()
+    head = []
+    for sm, lines in subs.items():
+        ids = [nd['id'] for nd in spec['nodes'] if nd.get('sm') == sm]
+        lines.append('export(%s)' % ', '.join('n%d=n%d, n%d_out=n%d_out' % (i, i, i, i)
+                                              for i in ids))
+        head.append('%s_x = submodule(%r)' % (sm, sm))
+        for i in ids:
+            head.append("n%d = %s_x['n%d']" % (i, sm, i))
+            head.append("n%d_out = %s_x['n%d_out']" % (i, sm, i))
+    top[1:1] = head
     for d in spec.get('test_deps') or []:
         L.append('test_deps(*n%d_out)' % d)
     if spec.get('default'):
@@ -426,6 +512,8 @@ def render(spec, stub='vrec'):
     L.append('alias(%r, %s)' % ('everything', ' + '.join(every) if every else '[]'))
     files = dict(spec['files'])
     files['build.bfg'] = '\n'.join(L) + '\n'
+    for sm, lines in subs.items():
+        files[sm + '/build.bfg'] = '\n'.join(lines) + '\n'
     return files
 
 
@@ -507,7 +595,7 @@ class Model:
                 d, b = os.path.split(nd['name'])
                 if k != 'exe':
                     b = 'lib' + b
-                o = 'B:' + os.path.join(d, b + '.int', os.path.splitext(s)[0] + '.o')
+                o = 'B:' + os.path.join(d, b + '.int', os.path.splitext(_in_sub(nd, s))[0] + '.o')
                 self._step('%s%d/%s' % (k, i, s), i, 'compile',
                            ['S:' + s] + ['S:' + h for h in nd.get('hdrs', [])] + gch, [o])
                 objs.append(o)
